@@ -35,6 +35,12 @@ CHECKS = {
  "C18": dict(level="exploration", technique="model-based property testing (rapid): generated rule-file fault sequences x failOn x enable/disable lists against a reference model of the load policy and group algebra",
    text="Sequences of valid and faulty rule files (unreadable, syntax, DSL, import, empty), as lists or globs, under all failOn values, the legacy flag and enable/disable lists; the dynamic-rules checker is constructed and run in-process and compared with a reference model written from the statement (cells the statement leaves open accept both outcomes).",
    note="Runs in-process through linter.NewChecker with parameters set and restored per case; rule files and unreadable entries are materialised on disk.", ref="4/C18"),
+ "C08": dict(level="exploration", technique="property-based differential testing (rapid): generated workspaces x dialect-neutral configurations through all four built binaries; in-process analyzer.Run vs direct linter run for suggested edits",
+   text="Generated module trees (several packages, in-package and external tests, per-file import tables) are analysed by go-critic, gocritic, go-critic-analysis and gocritic-analysis with an equivalent configuration; normalised diagnostic multisets must be equal and duplicate-free; the analyzer's offered checker list must equal the CLI's; quick fixes must be forwarded unchanged.",
+   note="Binaries are rebuilt from /repo's working tree on every run; workspaces import the standard library only; body-less functions are excluded (they type-check but do not compile).", ref="4/C08"),
+ "C16": dict(level="exploration", technique="property-based end-to-end testing (rapid): generated workspaces, path layouts and flags through the built CLIs against an in-process reference (exit status, location resolution, file filters)",
+   text="Workspaces in four path layouts (incl. the working directory's path occurring inside another path and a workspace under $GOPATH), ten header-comment variants on ordinary and test files, all exit codes and filter flags; exit status, printed locations (must resolve to real files) and the multiset of lines are compared with an in-process expectation for exactly the files that should be analysed.",
+   note="Generated status is decided by the Go convention (ast.IsGenerated semantics re-implemented by construction of the headers); expectation uses the spec's selection function.", ref="4/C16"),
 }
 
 NOT_YET = {}
